@@ -114,31 +114,55 @@ def gen_case(rng, boundary=None):
             ops.append(("E", FINISH_FN, t, 0, 0))
     if boundary is None and len(ops) >= 3 and rng.random() < 0.25:
         close = rng.randrange(1, len(ops))          # another thread's mcount_trace_finish closes the pipe before this op
+    ops2, sync2 = None, None
+    if boundary is None and end is None and close is None and rng.random() < 0.2 and not (stack and stack[-1] in NOTRACE):
+        # the task exec()s a second traced image (same tid, new session): TASK_START for a known tid, flush_old_shmem
+        ops2, st2, t2 = [], [], t + 1000
+        for _ in range(rng.randrange(1, 12)):
+            t2 += rng.randrange(1, 50)
+            if st2 and (rng.random() < 0.45 or len(st2) >= 6 or st2[-1] in NOTRACE):
+                st2.pop()
+                ops2.append(("X", t2, rng.randrange(1 << 40)))
+            else:
+                k = rng.choice([x for x in range(NFUNC) if x != FINISH_FN]) if with_args else rng.choice([0, 7, 8, 10, 11, 12])
+                st2.append(k)
+                ops2.append(("E", k, t2, rng.randrange(1 << 48), rng.randrange(1 << 32)))
+        sync2 = [rng.random() < 0.3 for _ in ops2]
     sync = [rng.random() < 0.3 for _ in ops]
     if end == "signal" and ops[-1][0] == "E":
         sync[-1] = False        # (that entry hook only runs mtd_dtor: it is not an op of the model)
     e = rng.randrange(0, 9) if mode == "kill" else None
-    return {"cap": cap, "ops": ops, "sync": sync, "mode": mode, "e": e, "args": with_args, "end": end, "close": close}
+    return {"cap": cap, "ops": ops, "sync": sync, "mode": mode, "e": e, "args": with_args, "end": end, "close": close,
+            "ops2": ops2, "sync2": sync2}
 
 
-def case_script(c):
+def case_script(c, second=False):
+    """lines of the producer script and the driver's actions; with an exec the first image's script ends with EXEC
+    and the second image's script (returned by a second call) carries the kill / the way of dying"""
     lines, actions = [], []
-    n = len(c["ops"])
-    for i, o in enumerate(c["ops"]):
-        if c["sync"][i]:
+    has2 = bool(c.get("ops2"))
+    ops = c["ops2"] if second else c["ops"]
+    sync = c["sync2"] if second else c["sync"]
+    n = len(ops)
+    last_image = second or not has2
+    for i, o in enumerate(ops):
+        if sync[i]:
             lines.append("S")
             actions.append("R")
-        if c.get("close") == i:
+        if c.get("close") == i and not second:
             lines.append("CLOSE")
         if c.get("end") == "signal" and i == n - 1:
             lines.append("SIG")
-        if c["mode"] == "kill" and i == n - 1:
+        if c["mode"] == "kill" and i == n - 1 and last_image:
             lines.append("S")
             actions.append("K%d" % c["e"])
         if o[0] == "E":
             lines.append("E %d %d %d %d" % (o[1], o[2], o[3], o[4]))
         else:
             lines.append("X %d %d" % (o[1], o[2]))
+    if not last_image:
+        lines.append("EXEC @SCRIPT2@")
+        return lines, actions
     if c.get("end") == "tend":
         lines.append("TEND")
     if c["mode"] == "kill":
@@ -156,6 +180,13 @@ def run_case(rec_exe, prod_exe, workdir, c, idx):
     os.makedirs(d)
     lines, actions = case_script(c)
     script = os.path.join(d, "script.txt")
+    if c.get("ops2"):
+        lines2, actions2 = case_script(c, second=True)
+        script2 = os.path.join(d, "script2.txt")
+        with open(script2, "w") as f:
+            f.write("\n".join(lines2) + "\n")
+        lines = [l.replace("@SCRIPT2@", script2) for l in lines]
+        actions = actions + actions2
     with open(script, "w") as f:
         f.write("\n".join(lines) + "\n")
     env = {k: v for k, v in os.environ.items() if not k.startswith("UFTRACE_")}
@@ -199,9 +230,9 @@ def model_ops(c):
     return ops
 
 
-def coq_ops(c, f0):
+def coq_ops(c, f0, second=False):
     out, stack = [], []
-    for o in model_ops(c):
+    for o in ((c.get("ops2") or []) if second else model_ops(c)):
         if o[0] == "E":
             k = o[1]
             stack.append(k)
@@ -219,13 +250,14 @@ def coq_case(c, r, f0):
     flush = (end == "trigger") if end else c["mode"] in ("segv", "abrt")
     nmo = len(model_ops(c))
     return ("{| tc_single := " + coq.coq_bool(SINGLE_BUMP) + "; tc_cap := %d; tc_ops := %s; tc_sync := [%s]; tc_kill := %s; tc_flush := %s; "
-            "tc_close := %d; tc_end := %d; "
+            "tc_close := %d; tc_end := %d; tc_ops2 := %s; tc_sync2 := [%s]; "
             "tc_shl := %s; tc_shf := %s; tc_wl := %s; tc_file := %s |}" % (
                 c["cap"], coq_ops(c, f0), "; ".join(coq.coq_bool(b) for b in c["sync"][:nmo]),
                 ("Some %d" % c["e"]) if c["mode"] == "kill" else "None",
                 coq.coq_bool(flush),
                 c["close"] if c.get("close") is not None else nmo + 9,
                 {None: 0, "trigger": 1, "signal": 1, "tend": 1 if c.get("close") is not None else 2}[end],
+                coq_ops(c, f0, second=True), "; ".join(coq.coq_bool(b) for b in (c.get("sync2") or [])),
                 coq_nats(r["shl"]), coq_bytes(r["shf"]), coq_nats(r["wl"]), coq_bytes(r["file"])))
 
 
@@ -257,7 +289,8 @@ def model_obs(ctx, c, r, f0):
 
 def case_json(c, r=None):
     j = {"cap": c["cap"], "ops": [list(o) for o in c["ops"]], "sync": c["sync"], "mode": c["mode"], "e": c["e"],
-         "args": c["args"], "end": c.get("end"), "close": c.get("close")}
+         "args": c["args"], "end": c.get("end"), "close": c.get("close"),
+         "ops2": [list(o) for o in c["ops2"]] if c.get("ops2") else None, "sync2": c.get("sync2")}
     if r is not None:
         j["impl"] = {"status": r.get("status"), "shl": r.get("shl"), "shf": r.get("shf"), "wl": r.get("wl"),
                      "file": r.get("file", b"").hex()}
@@ -266,7 +299,8 @@ def case_json(c, r=None):
 
 def case_from_json(j):
     return {"cap": j["cap"], "ops": [tuple(o) for o in j["ops"]], "sync": j["sync"], "mode": j["mode"], "e": j["e"],
-            "args": j["args"], "end": j.get("end"), "close": j.get("close")}
+            "args": j["args"], "end": j.get("end"), "close": j.get("close"),
+            "ops2": [tuple(o) for o in j["ops2"]] if j.get("ops2") else None, "sync2": j.get("sync2")}
 
 
 def build_store(ctx, objdir):
@@ -315,13 +349,25 @@ def store_cases(ctx):
                           "e": 0 if mode == "kill" else None, "directed": "norecord-innermost"})
     cases += shrink_cases()
     cases += finish_cases()
+    # exec: the second image is killed inside its very first hook call (before / after its REC_START + flag, i.e. before
+    # or after TASK_START made the recorder flush the old image's buffer), later, or it crashes
+    for args in (False, True):
+        ops1 = [("E", 0, 1010, 1, 2), ("E", 1 if args else 7, 1020, 3, 4), ("E", 8, 1030, 0, 0), ("X", 1040, 0)]
+        ops2 = [("E", 0, 2010, 1, 2), ("E", 3 if args else 10, 2020, 5, 6), ("X", 2030, 7), ("E", 11, 2040, 0, 0)]
+        for cap in (48, 4080):
+            for n2, mode, e in ((1, "kill", 0), (1, "kill", 1), (1, "kill", 2), (3, "kill", 1), (4, "segv", None), (4, "exit", None)):
+                if ctx.n(0, 1) == 0 and cap == 4080 and (mode == "exit" or e == 2):
+                    continue        # (quick tier: a subset)
+                cases.append({"cap": cap, "args": args, "mode": mode, "ops": ops1, "sync": [False, False, cap == 48, False],
+                              "e": e, "end": None, "close": None, "ops2": ops2[:n2], "sync2": [False, True, False, False][:n2],
+                              "directed": "exec"})
     # killed inside the thread's very first hook call (mcount_prepare -> prepare_shmem_buffer): before REC_START 0,
     # after the buffer's flag is set, after the call
     for e in (0, 1, 2):
         for k, args in ((0, False), (1, True), (12, False)):
             cases.append({"cap": 64, "args": args, "mode": "kill", "ops": [("E", k, 1010, 5, 6)], "sync": [False], "e": e,
                           "end": None, "close": None, "directed": "first-hook-call"})
-    for _ in range(ctx.n(40, 800)):
+    for _ in range(ctx.n(34, 800)):
         cases.append(gen_case(rng))
     return cases
 
@@ -423,6 +469,8 @@ def run_store(ctx, objdir):
             tags.append("store:recording-ends-by-" + c["end"])
         if c.get("close") is not None:
             tags.append("store:pipe-closed-by-another-thread")
+        if c.get("ops2"):
+            tags.append("store:exec-second-image(TASK_START,flush_old_shmem)")
         ctx.case(key=("store", json.dumps(case_json(c), sort_keys=True)), nontrivial=len(r["file"]) > 0, tags=tags,
                  size=len(c["ops"]), sample=case_json(c, r) if len(ctx.samples) < 2 and nrec > 2 else None)
     store_verdict(ctx, good_c, good_r, res, f0)
